@@ -186,11 +186,17 @@ def judgePure (pm : PureMon) (ws : List String) (obs : String) : PureMon × List
         | ["ok", _, back] => if back = l then (pm, []) else (pm, [("C17", s!"canonical label {l} prints and parses back as {back}")])
         | _ => (pm, [("C17", s!"canonical label {l} answered '{obs}'")])
       else (pm, [])
-  | ["label", "kid", _, l] =>
+  | ["label", "kid", t, l] =>
     let pm := { pm with labelLines := pm.labelLines + 1 }
-    match parseLabelTok l with
-    | some lab => if canonLabel lab ∧ obs.trimAscii.toString ≠ "ok 1" then (pm, [("C17", s!"edge bound under the parsed name is not found under {l}: '{obs}'")]) else (pm, [])
-    | none => (pm, [])
+    -- the edge is bound under the name parsed from the text `t` and looked up under the label `l`: it must be found when `l` is
+    -- the (canonical) label that text stands for, and must not be found under any other label (distinct texts, distinct labels)
+    match parseLabelTok l, (parseTextTok t).bind Lb.parse with
+    | some lab, some parsed =>
+      if parsed = lab then
+        (if canonLabel lab ∧ obs.trimAscii.toString ≠ "ok 1" then (pm, [("C17", s!"edge bound under the parsed name is not found under {l}: '{obs}'")]) else (pm, []))
+      else if obs.trimAscii.toString = "ok 1" then (pm, [("C17", s!"edge bound under the name {t} is found under the different label {l}: distinct texts must give distinct labels")])
+      else (pm, [])
+    | _, _ => (pm, [])
   | _ => (pm, [])
 
 
